@@ -600,7 +600,10 @@ def gen_text(rnd):
 FIXED_TEXTS = ['', '\n', '\r\n', 'no trailing newline', 'one trailing newline\n', 'two trailing newlines\n\n', 'crlf line 1\r\ncrlf line 2\r\n', 'mixed\r\nline\nendings\rhere',
                '\ufeffstarts with a BOM\n', 'nul \x00 inside\n', ' leading and trailing blanks \n ', '\t\ttabs\t\n', 'é日本語😀\n', '#!/bin/sh\necho "hello $USER"\nexit 0\n',
                '{"looks": "like json"}', 'a: yaml\nb: [1, 2]\n', 'key = "toml"\n', 'let x = 1;\n', '"quoted"', "it's", 'back\\slash \\n \\t \\" \\\\', '@ @{x} %', '\x7f\x1b[0m\x01',
-               'x' * 5000 + '\n', ('line %d\r\n' * 300) % tuple(range(300)), '\u0085\u2028\u2029\n', '\n\n\n', ' ', '\r', 'ends with CR\r', '\U0010ffff\uffff\ud7ff']
+               'x' * 5000 + '\n', ('line %d\r\n' * 300) % tuple(range(300)), '\u0085\u2028\u2029\n', '\n\n\n', ' ', '\r', 'ends with CR\r', '\U0010ffff\uffff\ud7ff',
+               # the text UNCHANGED: a leading U+FEFF, blanks, line ends, control characters at either end are part of it
+               '\ufeff', '\ufeff\ufeff', '\ufeffhi', '\ufeff\r\nline\r\n', 'mid\ufeffdle', 'end\ufeff', '\ufeff{"a": 1}', '\ufffe', '\x00', '\x00\x00text', 'text\x00', '\x1a', 'a\x1ab', '\x0c\n', '\n leading newline',
+               '  two leading blanks', 'trailing blanks  ', '\t', '\n\r', '\r\n\r\n', 'x\n' * 1024, 'y' * 1023 + '\n', 'z' * 4096, '\ufeff' + 'w' * 4093]
 
 
 def standin_include_str(tier, seed):
@@ -623,8 +626,43 @@ def standin_include_str(tier, seed):
                 return 'the file\'s text is %r, x is %r' % (t[:200], (obs.get('v') if isinstance(obs, dict) else obs) if True else None)
             return None
         cases.append(Case({fn: t.encode('utf-8')}, src, 'json', check, 'x is the file\'s text, unchanged: %r' % t[:1500]))
-    bound = '%d UTF-8 texts (%d fixed: empty, CRLF / CR / mixed line ends, with and without trailing newlines, BOM, NUL, 5 kB line; %d seeded random, seed %s)' % (len(texts), len(FIXED_TEXTS), n, seed)
+    bound = '%d UTF-8 texts (%d fixed: empty, CRLF / CR / mixed line ends, with and without trailing newlines, U+FEFF at the start / alone / doubled / in the middle / at the end, NUL / Ctrl-Z / blanks at either end, 5 kB line, lengths around 1024 and 4096; %d seeded random, seed %s)' % (len(texts), len(FIXED_TEXTS), n, seed)
     return run_cases('include_str', bound, cases)
+
+
+# byte sequences a reader that treats the file as TEXT might strip, translate or stop at; `include b64` is the encoding of the file's bytes, all of them
+MARKS = [b'\xef\xbb\xbf', b'\xff\xfe', b'\xfe\xff', b'\xff\xfe\x00\x00', b'\x00\x00\xfe\xff', b'\xef\xbb', b'\xef', b'\x00', b'\x00\x00\x00', b'\n', b'\r', b'\r\n', b'\n\n', b' ', b'\t', b' \n',
+         b'\x1a', b'\xff', b'\xff\xff\xff', b'\x1f\x8b\x08', b'\x89PNG\r\n\x1a\n', b'\x0c', b'\x7f', b'\xc2\x85', b'\xe2\x80\xa8', b'\\n', b'=', b'==']
+
+
+def exact_byte_blobs(rnd, tier):
+    out = []
+    body = b'hi?>\n'
+    for m in MARKS:
+        out += [m, m + body, body + m, body[:2] + m + body[2:]] + ([m + m, m + body + m] if tier == 'thorough' or m in MARKS[:5] else [])
+    bom = MARKS[0]
+    for k in range(0, 6):                                   # BOM followed by 0..5 bytes (all paddings), ordinary bytes before it
+        tail = bytes(rnd.getrandbits(8) for _ in range(k))
+        out += [bom + tail, bom + b'a' * k, b'a' * k + bom, bom + bom + tail]
+    for m in (b'\xff\xfe', b'\xfe\xff'):                  # UTF-16 text with its BOM
+        enc = 'utf-16-le' if m == b'\xff\xfe' else 'utf-16-be'
+        out += [m + 'hi é\n'.encode(enc), m + ''.encode(enc), 'hi'.encode(enc)]
+    out += [b'line 1\nline 2', b'line 1\nline 2\n', b'line 1\r\nline 2\r\n', b'line 1\rline 2\r', b'\n' * 7, b'\r\n' * 5, b'\x00' * 9, b'\xff' * 10, b'text\x00', b'\x00text', b'te\x00xt\x00']
+    tops = [1024, 2048, 3072, 4096] + ([8192, 16384, 65536] if tier == 'thorough' else [])
+    for t in tops:                                          # around buffer sizes; the first of each is BOM-prefixed, the last ends in a newline
+        for d in (-2, -1, 0, 1, 2) if tier == 'thorough' else (-1, 0, 1):
+            b = bytes(rnd.getrandbits(8) for _ in range(t + d))
+            out.append(b)
+        out.append(bom + b[3:])
+        out.append(b[:-1] + b'\n')
+        # TEXT of these lengths with every kind of ending (a reader that tidies up text must not sit in the path of b64)
+        line = b'0123456789abcde\n'
+        if tier != 'thorough' and t not in (1024, 4096):
+            continue
+        for end in (b'', b'\n', b'\n\n', b'\r\n', b' ', b'\t\n', b'\x00'):
+            for d in (-1, 0, 1, 2) if tier == 'thorough' else (0, 1):
+                out.append((line * (t // len(line) + 2))[:t + d - len(end) - 1] + b'y' + end)
+    return out
 
 
 def standin_include_b64(tier, seed):
@@ -636,6 +674,9 @@ def standin_include_b64(tier, seed):
         blobs.append(bytes(rnd.getrandbits(8) for _ in range(k)))
     for _ in range(n):
         blobs.append(bytes(rnd.getrandbits(8) for _ in range(rnd.randint(0, 300))))
+    nmarks = len(blobs)
+    blobs += exact_byte_blobs(rnd, tier)
+    nmarks = len(blobs) - nmarks
     cases = []
     for i, b in enumerate(blobs):
         fn = 'b%04d.bin' % i
@@ -653,10 +694,131 @@ def standin_include_b64(tier, seed):
                 return 'base64 of the file is %r (url-safe %r), ucg has %r' % (want['s'][:120], want['u'][:120], {k: (v[:120] if isinstance(v, str) else v) for k, v in obs.items()} if isinstance(obs, dict) else obs)
             return None
         cases.append(Case({fn: b}, src, 'json', check, 's = %r, u = %r (python base64.b64encode / urlsafe_b64encode)' % (want['s'][:600], want['u'][:600])))
-    bound = '%d byte strings (all lengths 0..19, all 256 byte values, invalid UTF-8, 10 kB, %d seeded random up to 300 bytes, seed %s) x {b64, b64urlsafe}' % (len(blobs), n, seed)
+    bound = ('%d byte strings (all lengths 0..19, all 256 byte values, invalid UTF-8, 10 kB, %d seeded random up to 300 bytes, seed %s; %d files that begin with / consist of / contain / end in a byte '
+             'sequence a text reader might drop or rewrite: UTF-8 / UTF-16 / UTF-32 byte order marks (whole, partial, doubled, followed by 0..5 bytes), NUL, LF, CR, CRLF, blanks, Ctrl-Z, 0xFF, gzip / PNG '
+             'magic, each also behind and before 0..4 ordinary bytes; lengths around multiples of 1024 up to %d) x {b64, b64urlsafe}' % (len(blobs), n, seed, nmarks, 65537 if tier == 'thorough' else 4097))
     r = run_cases('include_b64', bound, cases)
     r['cases'] = 2 * len(blobs)
     return r
+
+
+# ---------------------------------------------------------------------------------------------------------------------
+# WHICH file: the path of an include is relative to the file that contains the expression (reference "Include expressions": `include str
+# "./script.sh"`; C09's statement) -- whatever the working directory of the process is and whatever the path's first letters are (a directory
+# called std, a file called stdx.json: the reference knows a library name space `std/` for IMPORTS only).  Every data file of this family holds
+# its own location, every place the same path string would name from another directory holds a decoy of the same format.
+REL_TYPES = [('str', 'txt'), ('json', 'json'), ('yaml', 'yaml'), ('toml', 'toml'), ('b64', 'bin'), ('b64urlsafe', 'bin')]
+REL_SPELLINGS = ['std/data.%s', 'stdx.%s', 'std_d/data.%s', './std/data.%s', 'data/conf.%s', 'std/sub/data.%s', 'sub/../std/data.%s', 'std.%s', 'data.%s', 'std/../stdx.%s', './stdx.%s', 'stdlib/std/data.%s']
+REL_DIRS = ['std', 'std_d', 'data', 'std/sub', 'sub', 'stdlib/std']
+
+
+def rel_document(typ, where):
+    """(bytes of the file, expected value of the include) for a data file that sits at `where`"""
+    doc = {'who': where, 'n': [1, 2, 3], 'nested': {'ok': True, 'why': 'é ✓'}}
+    if typ == 'str':
+        t = 'FILE %s\nsecond line é ✓\n' % where
+        return t.encode('utf-8'), t
+    if typ == 'json':
+        return json.dumps(doc, indent=1).encode('utf-8'), doc
+    if typ == 'yaml':
+        return ('who: "%s"\nn:\n  - 1\n  - 2\n  - 3\nnested:\n  ok: true\n  why: "é ✓"\n' % where).encode('utf-8'), doc
+    if typ == 'toml':
+        return ('who = "%s"\nn = [1, 2, 3]\n\n[nested]\nok = true\nwhy = "é ✓"\n' % where).encode('utf-8'), doc
+    raw = b'\xef\xbb\xbfFILE ' + where.encode('utf-8') + b'\x00\xff\xfe>>??\n'
+    return raw, (base64.b64encode(raw) if typ == 'b64' else base64.urlsafe_b64encode(raw)).decode('ascii')
+
+
+def standin_include_relative_to_file(tier, seed):
+    import posixpath
+    name = 'include_relative_to_file'
+    rnd = random.Random('c15-rel-%s' % seed)
+    work = tempfile.mkdtemp(prefix='verif_c15r_')
+    includers = [('proj', 'the main file'), ('proj/lib', 'a file imported from the main file')]
+    cwds = [('the directory of the main file', 'proj'), ('the parent directory', '.'), ('an unrelated directory (absolute path of the main file)', 'elsewhere/deep'), ('the directory of the imported file', 'proj/lib')]
+    spellings = REL_SPELLINGS if tier == 'thorough' else REL_SPELLINGS[:5] + rnd.sample(REL_SPELLINGS[5:], 1)
+    if tier != 'thorough':
+        cwds = [cwds[1], cwds[2 + seed % 2]]      # quick: the parent directory and one of {unrelated directory, directory of the imported file}
+    bound = ('%d include types (str, json, yaml, toml, b64, b64urlsafe) x %d path spellings (%s) x 2 including files (the main file; a file in another directory imported from it) x 2 positions (let; function '
+             'body, alternating), each built from %d working directories (%s); every data file holds its own location, decoys of the same format sit wherever the path string would lead from one of the other directories; '
+             'expected: the data of the file next to the INCLUDING file' % (len(REL_TYPES), len(spellings), ', '.join(x % 'E' for x in spellings), len(cwds), '; '.join(c[0] for c in cwds)))
+    try:
+        real, progs = {}, []           # real: path (relative to work) -> bytes
+        for d, _ in includers:
+            for sub in REL_DIRS:
+                os.makedirs(os.path.join(work, d, sub), exist_ok=True)
+        for ti, (typ, ext) in enumerate(REL_TYPES):
+            for si, sp in enumerate(spellings):
+                rel = sp % ext
+                for ii, (d, dwhat) in enumerate(includers):
+                    target = posixpath.normpath(posixpath.join(d, rel))
+                    if target not in real:
+                        real[target] = None
+                    k = 'p_%s_%d_%d' % (typ, si, ii)
+                    inc = 'include %s "%s"' % (typ, rel)
+                    body = 'let x = %s;\n' % inc if (ti + si + ii) % 2 == 0 else 'let f = func (q) => %s;\nlet x = f(0);\n' % inc
+                    if ii == 0:
+                        files = {'proj/%s.ucg' % k: body + 'out json {v = x};\n'}
+                    else:
+                        files = {'proj/%s.ucg' % k: 'let l = import "lib/%s_inc.ucg";\nout json {v = l.x};\n' % k, 'proj/lib/%s_inc.ucg' % k: body}
+                    progs.append(dict(k=k, typ=typ, rel=rel, target=target, files=files, dwhat=dwhat))
+        # the same relative location holds the same file for b64 and b64urlsafe (both are .bin): documents by (location, extension)
+        docs = {}
+        for pr in progs:
+            raw, _ = rel_document('b64' if pr['typ'].startswith('b64') else pr['typ'], pr['target'])
+            docs[pr['target']] = raw
+            pr['expected'] = rel_document(pr['typ'], pr['target'])[1]
+        decoys = {}
+        for pr in progs:
+            for _, c in cwds:
+                for base in [c] + [d for d, _ in includers]:
+                    q = posixpath.normpath(posixpath.join(base, pr['rel']))
+                    if q not in docs and not q.startswith('..'):
+                        decoys[q] = rel_document('b64' if pr['typ'].startswith('b64') else pr['typ'], 'DECOY at ' + q)[0]
+        for pth, raw in list(docs.items()) + list(decoys.items()):
+            os.makedirs(os.path.dirname(os.path.join(work, pth)), exist_ok=True)
+            with open(os.path.join(work, pth), 'wb') as f:
+                f.write(raw)
+        for pr in progs:
+            for pth, txt in pr['files'].items():
+                with open(os.path.join(work, pth), 'w', encoding='utf-8') as f:
+                    f.write(txt)
+        n = 0
+        for cwhat, c in cwds:
+            cdir = os.path.join(work, c)
+            os.makedirs(cdir, exist_ok=True)
+            for pr in progs:
+                a = os.path.join(work, 'proj', pr['k'] + '.json')
+                if os.path.exists(a):
+                    os.remove(a)
+            if c.startswith('elsewhere'):
+                args = [os.path.join(work, 'proj', pr['k'] + '.ucg') for pr in progs]
+            else:
+                args = [posixpath.relpath(posixpath.join('proj', pr['k'] + '.ucg'), c) for pr in progs]
+            rc, so, se = R.run_ucg(['build'] + args, cdir, timeout=600)
+            for pr, arg in zip(progs, args):
+                n += 1
+                a = os.path.join(work, 'proj', pr['k'] + '.json')
+                why, art = None, None
+                if not os.path.exists(a):
+                    why = 'the build failed / wrote no artifact'
+                else:
+                    art = open(a, encoding='utf-8', errors='replace').read()
+                    try:
+                        obs = G.decode_json(art)
+                        why = same_data(pr['expected'], obs.get('v') if isinstance(obs, dict) else obs)
+                    except G.Undecodable as e:
+                        why = 'the artifact does not decode: %s' % e
+                if why:
+                    log = [ln for ln in (so + se).split('\n') if pr['k'] in ln or 'rror' in ln][:6]
+                    near = {q: show_bytes(b, 300) for q, b in sorted(list(docs.items()) + list(decoys.items())) if posixpath.basename(q) == posixpath.basename(pr['target'])}
+                    return dict(name=name, bound=bound, cases=n, status='violation',
+                                detail='`include %s "%s"` in %s (directory %s), built from %s: %s; expected the data of %s' % (pr['typ'], pr['rel'], pr['dwhat'], posixpath.dirname(list(pr['files'])[-1]), cwhat, why[:300], pr['target']),
+                                input=dict(source=pr['files'], files=near, expected='v = %r (the file %s, next to the including file)' % (pr['expected'], pr['target']),
+                                           observed='%s; artifact %r; log: %s' % (why, art if art is None else art[:600], ' | '.join(log)[:600]),
+                                           how='write the files below a fresh directory <tmp>, cd <tmp>/%s, run the real `ucg build %s`, read <tmp>/proj/%s.json' % (c, arg.replace(work, '<tmp>'), pr['k'])))
+    finally:
+        shutil.rmtree(work, ignore_errors=True)
+    return dict(name=name, bound=bound, cases=n, status='ok')
 
 
 # ---------------------------------------------------------------------------------------------------------------------
@@ -788,4 +950,4 @@ def standin_include_malformed(tier, seed):
     return run_cases('include_malformed', bound, cases)
 
 
-STANDINS = [standin_include_json, standin_include_toml, standin_include_yaml, standin_include_number_types, standin_include_str, standin_include_b64, standin_include_malformed]
+STANDINS = [standin_include_json, standin_include_toml, standin_include_yaml, standin_include_number_types, standin_include_str, standin_include_b64, standin_include_relative_to_file, standin_include_malformed]
